@@ -181,6 +181,10 @@ MUTANTS = [
 ]
 
 
+# runs per check when --runs is not given: enough for every mutant below, a fraction of the quick tier
+DEFAULT_RUNS = {"C04": "2000", "C10": "300", "C11": "32", "C16": "320", "C17": "200", "C19": "48", "C20": "200"}
+
+
 def apply(root: Path, rel, old, new) -> None:
     if isinstance(rel, list):
         for r, o, n in zip(rel, old, new):
@@ -233,8 +237,7 @@ def main() -> None:
                 q.write_text(q.read_text() + "\nuint32_t fcp_last_call_t = 0;\n")
             env = dict(os.environ, VERIF_REPO=str(tmp), VERIF_EVIDENCE_DIR=str(tmp / "evidence"),
                        VERIF_REPLAY_DIR=str(tmp / "replays"))
-            if runs:
-                env["VERIF_RUNS"] = runs
+            env["VERIF_RUNS"] = runs or DEFAULT_RUNS[prop]
             t0 = time.time()
             p = subprocess.run([str(VERIF / "bin/check"), prop], env=env, capture_output=True, text=True)
             dt = time.time() - t0
